@@ -372,6 +372,11 @@ impl MemoryStore {
     pub fn verif_local_providers(&self) -> Vec<Key> {
         self.local_providers.keys().cloned().collect()
     }
+
+    /// Number of armed provider refresh timers.
+    pub fn verif_refresh_timers(&self) -> usize {
+        self.pending_provider_refresh.len()
+    }
 }
 
 #[derive(Debug)]
